@@ -34,7 +34,6 @@ SOLE_DECIDER = {
     "xbcast": {"C14": "the first sentence of C14 (query broadcast)", "C17": "the last sentence of C17 (sending order through one output)"},
     "xchan": {"C12": "the send / recv / wake-up half of C12", "C06": "the in-flight counter moves of send / recv"},
     "xreg": {"C16": "init exactly once before the first message"},
-    "xexec": {"C06": "the single-threaded executor's message count", "C11": "the single-threaded executor's panic report"},
     "xsched": {"C09": "the in-model re-check of a cancelled key"},
     "lcrw": {"C14": "the second sentence of C14 under thread interleavings"},
     "lqueue": {"C12": "the queue operations under thread interleavings"},
@@ -254,6 +253,18 @@ def run_unit(tmpl, tier, seeds=(0, 1, 2)):
             pass
     out["cmd"] = res.cmd
     fails, undecided, canary_hits = classify(tmpl, asm, res)
+    # a function in which a library obligation (overflow, unwrap, index) cannot be shown calls code whose effect the unit
+    # does not model at that point (typically: a rewrite rule did not fire on a reshaped call): what else fails in that
+    # function may be a consequence of it - undecided, never an alarm
+    lib_fns = set(re.findall(r"unattributed library obligation fails in (\w+)", " ".join(undecided)))
+    if lib_fns and fails:
+        kept = []
+        for f in fails:
+            if f.fn in lib_fns:
+                undecided.append("obligation %s is undecided: %s calls library code that the unit does not model there" % (f.oid, f.fn))
+            else:
+                kept.append(f)
+        fails = kept
     for u in getattr(asm, "uncontracted", []):
         undecided.append("function without a contract in a type whose invariant the unit relies on: %s" % u)
     out["verified"], out["functions"], out["smt_ms"] = res.verified, res.functions, res.smt_ms
